@@ -329,7 +329,15 @@ class Engine(MatrixTheory, NumpyTheory, Evaluator):
             if f.kind == 'method':
                 return self.apply_contract(self.pick_variant(f.extra, [f.self_val] + args, kw, st), [f.self_val] + args, kw, st, node)
             if f.kind == 'ndmethod':
-                return self.nd_method(f.self_val, f.name, args, kw, st, node)
+                mark_ = len(st.pc)
+                r_ = self.nd_method(f.self_val, f.name, args, kw, st, node)
+                for t_ in st.pc[mark_:]:
+                    if getattr(t_, '_label', None) is None:
+                        try:
+                            t_._label = 'theory:ndarray.' + f.name
+                        except Exception:
+                            pass
+                return r_
             if f.kind == 'nddunder':
                 # ndarray.__op__(arg) / ndarray.__op__(): row-wise (NumPy facts E1-E3, assumed; definition of op_row)
                 self.assumed_used.add('<lib>::ndarray.__op__ is row-wise (E1-E3)')
@@ -347,7 +355,15 @@ class Engine(MatrixTheory, NumpyTheory, Evaluator):
             if f.kind == 'assocmethod':
                 return f.self_val.vals if f.name == 'values' else f.self_val.keys
             if f.kind == 'matmethod':
-                return self.mat_method(f.self_val, f.name, args, kw, st, node)
+                mark_ = len(st.pc)
+                r_ = self.mat_method(f.self_val, f.name, args, kw, st, node)
+                for t_ in st.pc[mark_:]:
+                    if getattr(t_, '_label', None) is None:
+                        try:
+                            t_._label = 'theory:ndarray.' + f.name
+                        except Exception:
+                            pass
+                return r_
             if f.kind == 'ragmethod' and f.name == 'items':
                 return VRagItems(f.self_val)
             if f.kind == 'ragmethod':
